@@ -11,6 +11,7 @@ import (
 	"os"
 	"sort"
 	"strings"
+	"time"
 
 	"github.com/whoisnian/glb/zzverif/vsched"
 	"verif/engine/vcommon"
@@ -45,6 +46,7 @@ type Scenario struct {
 var (
 	scenFlag  = flag.String("scen", "", "worker: scenario name")
 	boundsFlag = flag.String("bounds", "0", "worker: deviation bounds to run in order")
+	jobCapFlag = flag.Float64("jobcap", 0, "worker: seconds this job may use (a fair share of the tier's budget)")
 )
 
 type job struct {
@@ -77,9 +79,23 @@ func plan(s *Scenario) Plan {
 	return s.Quick
 }
 
+// Budget is the fraction of the tier's time cap the schedule scenarios may use (checks that
+// also run a history search afterwards lower it).
+var Budget = 1.0
+
+var jobDeadline time.Time
+
+func deadline() time.Time {
+	d := vcommon.Start.Add(time.Duration(float64(vcommon.Deadline().Sub(vcommon.Start)) * Budget))
+	if !jobDeadline.IsZero() && jobDeadline.Before(d) {
+		return jobDeadline
+	}
+	return d
+}
+
 func cfgFor(s *Scenario, bound, shard, n int) vsched.Config {
 	return vsched.Config{Name: s.Name, Bound: bound, Delay: plan(s).Delay, AltCost: plan(s).Wide, Sleep: bound < 0 && !s.NoSleep && os.Getenv("VERIF_SLEEP") != "0", TimersLive: s.TimersLive, AllowPanic: s.AllowPanic, AllowRace: s.AllowRace,
-		Deadline: vcommon.Deadline(), Shard: shard, NShards: n}
+		Deadline: deadline(), Shard: shard, NShards: n}
 }
 
 func boundName(b int) string {
@@ -155,6 +171,9 @@ func Collect(all []Scenario) (map[string]any, []vcommon.Violation) {
 	}
 	// ---- worker mode: run the given bounds of one scenario, print one Result per bound
 	if i, n, worker := vcommon.ShardSpec(); worker {
+		if *jobCapFlag > 0 {
+			jobDeadline = time.Now().Add(time.Duration(*jobCapFlag * float64(time.Second)))
+		}
 		s := find(*scenFlag)
 		var out []*vsched.Result
 		for _, bs := range strings.Split(*boundsFlag, ",") {
@@ -190,13 +209,21 @@ func Collect(all []Scenario) (map[string]any, []vcommon.Violation) {
 			jobs = append(jobs, jobT{s, p.Bounds, 0, 1})
 		}
 	}
+	// every job gets a fair share of the budget: the pool runs NProc jobs at a time, so with
+	// w waves of jobs each may use 1/w of the time that is left
+	waves := (len(jobs) + vcommon.NProc() - 1) / vcommon.NProc()
+	left := time.Until(deadline()).Seconds()
+	jobCap := left / float64(waves)
+	if jobCap < 5 {
+		jobCap = 5
+	}
 	var args [][]string
 	for _, j := range jobs {
 		var bs []string
 		for _, b := range j.bounds {
 			bs = append(bs, fmt.Sprint(b))
 		}
-		args = append(args, []string{"-scen", j.scen.Name, "-bounds", strings.Join(bs, ","), "-shard", fmt.Sprintf("%d/%d", j.shard, j.n)})
+		args = append(args, []string{"-scen", j.scen.Name, "-bounds", strings.Join(bs, ","), "-shard", fmt.Sprintf("%d/%d", j.shard, j.n), "-jobcap", fmt.Sprintf("%.1f", jobCap)})
 	}
 	outs := vcommon.RunJobs(args)
 	var reports []scenReport
